@@ -549,6 +549,18 @@ async fn client(cfg: Cfg, port: u16, log: Arc<Mutex<Vec<u8>>>) -> CliObs {
         Err(_) => obs.outcome = String::from("hang"),
         Ok(Err(e)) => obs.outcome = err_kind(&e),
         Ok(Ok((conn, mut ldap))) => {
+            // The session's first request is queued BEFORE the driver first runs (one poll of the
+            // bind future), so that whatever the driver finds in its read buffer at that moment
+            // competes with a registered request and is not just dropped as unmatched.
+            let mut ldap_bind = ldap.clone();
+            let bind_fut = ldap_bind.simple_bind("cn=probe", "secret-probe");
+            tokio::pin!(bind_fut);
+            let mut early: Option<ldap3::result::Result<ldap3::LdapResult>> = None;
+            tokio::select! {
+                biased;
+                r = &mut bind_fut => early = Some(r),
+                _ = std::future::ready(()) => {}
+            }
             ldap3::drive!(conn);
             let pc = tokio::time::timeout(Duration::from_millis(OUTER_MS), ldap.get_peer_certificate()).await;
             obs.peer_cert = match pc {
@@ -560,7 +572,10 @@ async fn client(cfg: Cfg, port: u16, log: Arc<Mutex<Vec<u8>>>) -> CliObs {
                 Some(false) => String::from("ok-plain"),
                 None => String::from("ok-unknown"),
             };
-            let b = tokio::time::timeout(Duration::from_millis(OUTER_MS), ldap.simple_bind("cn=probe", "secret-probe")).await;
+            let b = match early {
+                Some(r) => Ok(r),
+                None => tokio::time::timeout(Duration::from_millis(OUTER_MS), &mut bind_fut).await,
+            };
             if let Ok(Ok(r)) = b {
                 obs.bind = Some((r.rc, r.text.clone()));
             }
@@ -629,7 +644,14 @@ fn success_resp() -> Vec<u8> {
 fn forged_frames() -> Vec<u8> {
     // BindResponse success for the ID the first operation of the session will get (2), and a
     // SearchResultEntry + SearchResultDone for the same ID
-    let mut v = result_msg(2, 1, 0, "forged-cleartext");
+    // Many copies: a forged frame that is decoded BEFORE the session's first request is registered
+    // is dropped as unmatched, and which of the two happens first is the driver's (random) choice;
+    // with 64 copies some are still in the read buffer when the request is registered, if the
+    // buffer survived the upgrade at all (seeded change C17-read-buffer-survives-upgrade).
+    let mut v = vec![];
+    for _ in 0..64 {
+        v.extend(result_msg(2, 1, 0, "forged-cleartext"));
+    }
     v.extend(entry_msg(2, "cn=forged"));
     v.extend(result_msg(2, 5, 0, "forged-cleartext"));
     v
